@@ -77,6 +77,7 @@ func runC13C(e *Env, r *core.Run) {
 		origin.AppendMessage(l, m)
 		mOrigin.Append(l, m)
 	}
+	origin0 := origin.Clone() // pristine copy for the sequential re-execution (C06 registration)
 	ntasks := 2 + t.W(3)
 	scripts := make([][]c13cOp, ntasks)
 	total := 0
@@ -154,10 +155,23 @@ func runC13C(e *Env, r *core.Run) {
 	r.CountN(c13cInOp, int64(sim.SwitchInOp))
 	r.Nontrivial = sim.SwitchInOp >= 1
 	if quiet {
-		for i := range outs {
-			for j := range outs[i] {
-				r.Ev("task %d op %d -> %s", i, j, core.Hex8(outs[i][j]))
+		// C06: log what each task's script gives when executed ALONE on this build (schedule-
+		// independent, must be equal on every backend), and report separately whether the concurrent
+		// execution deviated from it on this build.  The driver keeps such a deviation only if it is
+		// backend-specific (it occurs on one build and never on the other); a deviation that occurs
+		// on every build is a defect in shared code, which C13 / C18 report, not C06.
+		deviates := false
+		for i := range scripts {
+			seq := c13cSequential(origin0, scripts[i])
+			for j := range seq {
+				r.Ev("task %d op %d -> %s", i, j, core.Hex8(seq[j]))
+				if !bytes.Equal(seq[j], outs[i][j]) {
+					deviates = true
+				}
 			}
+		}
+		if deviates {
+			r.Main.FailSilently("backend-concurrency", "deviates-from-sequential", "on this build the outputs of concurrent transcript users differ from what each user's history gives alone")
 		}
 	} else {
 		r.Ev("sched policy=%d yields=%d switches=%d inop=%d hash=%x", sim.Policy(), sim.Yields, sim.Switches, sim.SwitchInOp, sim.SchedHash)
@@ -201,6 +215,32 @@ func runC13C(e *Env, r *core.Run) {
 	if w := mOrigin.Challenge("origin-final", 32); !bytes.Equal(a, w) {
 		r.Fail("model-divergence", "origin-disturbed-by-clones", "after concurrent use of its clones the origin transcript's challenge is %s, model %s", core.Hex8(a), core.Hex8(w))
 	}
+}
+
+// c13cSequential executes one task's script alone on a clone of the origin.
+func c13cSequential(origin *merlin.Transcript, script []c13cOp) [][]byte {
+	out := make([][]byte, len(script))
+	mine := origin.Clone()
+	for j, op := range script {
+		switch op.kind {
+		case 0:
+			mine.AppendMessage(op.label, op.data)
+		case 1:
+			b := make([]byte, op.n)
+			mine.ExtractBytes(b, op.label)
+			out[j] = b
+		case 2:
+			mine = mine.Clone()
+		default:
+			rd, err := mine.BuildRng().RekeyWithWitnessBytes(op.label, op.data).Finalize(NewFixedReader(op.ent))
+			if err == nil {
+				b := make([]byte, op.n)
+				_, _ = rd.Read(b)
+				out[j] = b
+			}
+		}
+	}
+	return out
 }
 
 // FixedReader serves a fixed byte string, then zeros; never fails.
